@@ -221,7 +221,7 @@ Proof.
 Qed.
 Lemma Pfifo_unreg st k : Pfifo st -> Pfifo (unregister st k).
 Proof.
-  intros H. unfold unregister. destruct (nth_error (tokens st) k) as [[t i]|]; exact H.
+  intros H. unfold unregister. destruct (nth_error (tokens st) k) as [[[t i] [|]]|]; exact H.
 Qed.
 
 Lemma Pfifo_init c st0 : new_loop c = Ok st0 -> Pfifo st0.
@@ -320,7 +320,7 @@ Proof.
   - intros s t h p r Hs. replace (@nil (bool * hid * event)) with (@nil (bool * hid * event) ++ []) by auto.
     eapply ext_trans; [exact Hs|]. apply ext_same_log. unfold register. destruct (find_free (handlers s t)); reflexivity.
   - intros s k Hs. replace (@nil (bool * hid * event)) with (@nil (bool * hid * event) ++ []) by auto.
-    eapply ext_trans; [exact Hs|]. apply ext_same_log. unfold unregister. destruct (nth_error (tokens s) k) as [[? ?]|]; reflexivity.
+    eapply ext_trans; [exact Hs|]. apply ext_same_log. unfold unregister. destruct (nth_error (tokens s) k) as [[[? ?] [|]]|]; reflexivity.
   - apply ext_refl.
 Qed.
 
@@ -340,7 +340,7 @@ Proof.
     + inversion E; subst. destruct oe; cbn [delay_until]; [|apply ext_refl].
       eexists; cbn [log]; split; [reflexivity|]. simpl. auto.
     + inversion E; subst. apply ext_same_log. unfold register. destruct (find_free (handlers st t)); reflexivity.
-    + inversion E; subst. apply ext_same_log. unfold unregister. destruct (nth_error (tokens st) k) as [[? ?]|]; reflexivity.
+    + inversion E; subst. apply ext_same_log. unfold unregister. destruct (nth_error (tokens st) k) as [[[? ?] [|]]|]; reflexivity.
 Qed.
 
 Lemma invoke_once d add b e st h st' : deeper_ok d add ->
@@ -495,7 +495,7 @@ Lemma Pdef_reg X Y st t h p r : Pdef X Y st -> Pdef X Y (register st t h p r).
 Proof. intros H. unfold register. destruct (find_free (handlers st t)); eapply Pdef_state_only; [| |exact H| | |exact H]; reflexivity. Qed.
 Lemma Pdef_unreg X Y st k : Pdef X Y st -> Pdef X Y (unregister st k).
 Proof.
-  intros H. unfold unregister. destruct (nth_error (tokens st) k) as [[t i]|]; exact H.
+  intros H. unfold unregister. destruct (nth_error (tokens st) k) as [[[t i] [|]]|]; exact H.
 Qed.
 
 Lemma Pdef_add_event X Y fuel d st oe st' : Pdef X Y st -> add_event script fuel d st oe = Some st' -> Pdef X Y st'.
@@ -604,6 +604,201 @@ Proof.
   - inversion H; subst. exists []. rewrite app_nil_r. split; auto.
     unfold register. destruct (find_free (handlers st t)); reflexivity.
   - inversion H; subst. exists []. rewrite app_nil_r. split; auto.
-    unfold unregister. destruct (nth_error (tokens st) k) as [[? ?]|]; reflexivity.
+    unfold unregister. destruct (nth_error (tokens st) k) as [[[? ?] [|]]|]; reflexivity.
 Qed.
 End Deferred.
+
+(* ------------------------------------------------------------------------------------------ *)
+(* registered = Register was called and the closure it returned has not been called yet        *)
+(* ------------------------------------------------------------------------------------------ *)
+Lemma lset_length {X} (l : list X) i x : length (lset l i x) = length l.
+Proof. revert i; induction l; destruct i; simpl; auto. Qed.
+Lemma lset_nth_same {X} (l : list X) i x : i < length l -> nth_error (lset l i x) i = Some x.
+Proof. revert i; induction l; destruct i; simpl; intros; try lia; auto. apply IHl. lia. Qed.
+Lemma lset_nth_other {X} (l : list X) i j x : j <> i -> nth_error (lset l i x) j = nth_error l j.
+Proof. revert i j; induction l; destruct i, j; simpl; intros; auto; try lia. Qed.
+
+Lemma find_free_some hs i : find_free hs = Some i -> exists s, nth_error hs i = Some s /\ s_cb s = None.
+Proof.
+  revert i; induction hs as [|s r IH]; simpl; intros i H; [discriminate|].
+  destruct (s_cb s) eqn:E.
+  - destruct (find_free r) as [j|]; simpl in H; [|discriminate]. inversion H; subst. simpl. apply IH; auto.
+  - inversion H; subst. simpl. eauto.
+Qed.
+Lemma find_free_none hs : find_free hs = None -> forall i s, nth_error hs i = Some s -> s_cb s <> None.
+Proof.
+  induction hs as [|s r IH]; simpl; intros H i s0 Hn; [destruct i; discriminate|].
+  destruct (s_cb s) eqn:E; [|discriminate].
+  destruct (find_free r); simpl in H; [discriminate|].
+  destruct i; simpl in Hn; [inversion Hn; subst; congruence|]. eapply IH; eauto.
+Qed.
+
+Definition live_slot (st : lstate) (t : ety) (i : nat) : Prop :=
+  exists s, nth_error (handlers st t) i = Some s /\ s_cb s <> None.
+
+(* the handler table and the unregister closures agree: slot (t,i) holds a callback iff exactly one
+   closure that has not been called yet points to it *)
+Definition Ptok (st : lstate) : Prop :=
+  (forall t i, live_slot st t i <-> exists k, nth_error (tokens st) k = Some (t, i, false)) /\
+  (forall k k' t i, nth_error (tokens st) k = Some (t, i, false) ->
+                    nth_error (tokens st) k' = Some (t, i, false) -> k = k').
+
+Lemma Ptok_same st st' : handlers st' = handlers st -> tokens st' = tokens st -> Ptok st -> Ptok st'.
+Proof. intros H1 H2 H. unfold Ptok, live_slot. rewrite H1, H2. exact H. Qed.
+
+(* where Register puts the handler *)
+Definition reg_index (st : lstate) (t : ety) : nat :=
+  match find_free (handlers st t) with Some i => i | None => length (handlers st t) end.
+
+Lemma register_tokens st t h p r : tokens (register st t h p r) = tokens st ++ [(t, reg_index st t, false)].
+Proof. unfold register, reg_index. destruct (find_free (handlers st t)); reflexivity. Qed.
+
+Lemma reg_index_free st t : ~ live_slot st t (reg_index st t).
+Proof.
+  unfold reg_index, live_slot. intros (s & Hn & Hs). destruct (find_free (handlers st t)) as [i|] eqn:E.
+  - apply find_free_some in E. destruct E as (s' & Hn' & Hs'). congruence.
+  - assert (nth_error (handlers st t) (length (handlers st t)) = None) by (apply nth_error_None; lia). congruence.
+Qed.
+
+Lemma register_live st t h p r t' i' :
+  live_slot (register st t h p r) t' i' <-> (t' = t /\ i' = reg_index st t) \/ live_slot st t' i'.
+Proof.
+  pose proof (reg_index_free st t) as Hfree.
+  unfold register, reg_index, live_slot in *.
+  destruct (find_free (handlers st t)) as [i|] eqn:E; cbn [handlers]; unfold upd.
+  - apply find_free_some in E. destruct E as (s0 & Hn0 & Hs0).
+    assert (Hlt : i < length (handlers st t)) by (apply nth_error_Some; congruence).
+    destruct (N.eqb_spec t' t) as [->|Hne].
+    + unfold set_slot. destruct (Nat.eq_dec i' i) as [->|Hi].
+      * rewrite lset_nth_same by auto. split; [auto|]. intros _. eexists; split; [reflexivity|]. simpl. discriminate.
+      * rewrite lset_nth_other by auto. split; [auto|]. intros [[_ ?]|?]; [lia|auto].
+    + split; [auto|]. intros [[? _]|?]; [congruence|auto].
+  - destruct (N.eqb_spec t' t) as [->|Hne].
+    + destruct (Nat.eq_dec i' (length (handlers st t))) as [->|Hi].
+      * rewrite nth_error_app2 by lia. rewrite Nat.sub_diag. simpl. split; [auto|].
+        intros _. eexists; split; [reflexivity|]. simpl. discriminate.
+      * split.
+        { intros (s & Hn & Hs). right. exists s. split; auto.
+          destruct (Nat.lt_ge_cases i' (length (handlers st t))).
+          - rewrite nth_error_app1 in Hn by auto. auto.
+          - rewrite nth_error_app2 in Hn by auto. destruct (i' - length (handlers st t)) eqn:D; [lia|].
+            simpl in Hn. destruct n; discriminate. }
+        { intros [[_ ?]|(s & Hn & Hs)]; [lia|]. exists s. split; auto.
+          rewrite nth_error_app1; auto. apply nth_error_Some. congruence. }
+    + split; [auto|]. intros [[? _]|?]; [congruence|auto].
+Qed.
+
+Lemma Ptok_reg st t h p r : Ptok st -> Ptok (register st t h p r).
+Proof.
+  intros [Hiff Huniq]. pose proof (reg_index_free st t) as Hfree.
+  assert (Hnotok : forall k, nth_error (tokens st) k <> Some (t, reg_index st t, false)).
+  { intros k Hk. apply Hfree. apply Hiff. eauto. }
+  split.
+  - intros t' i'. rewrite register_live, register_tokens. split.
+    + intros [[-> ->]|Hl].
+      * exists (length (tokens st)). rewrite nth_error_app2 by lia. rewrite Nat.sub_diag. reflexivity.
+      * apply Hiff in Hl. destruct Hl as (k & Hk). exists k. rewrite nth_error_app1; auto.
+        apply nth_error_Some. congruence.
+    + intros (k & Hk). destruct (Nat.lt_ge_cases k (length (tokens st))).
+      * rewrite nth_error_app1 in Hk by auto. right. apply Hiff. eauto.
+      * rewrite nth_error_app2 in Hk by auto. destruct (k - length (tokens st)) eqn:D.
+        { simpl in Hk. inversion Hk; subst. left; auto. }
+        { simpl in Hk. destruct n; discriminate. }
+  - intros k k' t' i'. rewrite register_tokens. intros Hk Hk'.
+    destruct (Nat.lt_ge_cases k (length (tokens st))) as [L|L]; destruct (Nat.lt_ge_cases k' (length (tokens st))) as [L'|L'].
+    + rewrite nth_error_app1 in Hk, Hk' by auto. eapply Huniq; eauto.
+    + rewrite nth_error_app1 in Hk by auto. rewrite nth_error_app2 in Hk' by auto.
+      destruct (k' - length (tokens st)) eqn:D; simpl in Hk'; [|destruct n; discriminate].
+      inversion Hk'; subst. exfalso. eapply Hnotok; eauto.
+    + rewrite nth_error_app1 in Hk' by auto. rewrite nth_error_app2 in Hk by auto.
+      destruct (k - length (tokens st)) eqn:D; simpl in Hk; [|destruct n; discriminate].
+      inversion Hk; subst. exfalso. eapply Hnotok; eauto.
+    + rewrite nth_error_app2 in Hk, Hk' by auto.
+      destruct (k - length (tokens st)) eqn:D; simpl in Hk; [|destruct n; discriminate].
+      destruct (k' - length (tokens st)) eqn:D'; simpl in Hk'; [|destruct n; discriminate]. lia.
+Qed.
+
+Lemma clear_cb_live hs i j :
+  (exists s, nth_error (clear_cb hs i) j = Some s /\ s_cb s <> None) <->
+  (j <> i /\ exists s, nth_error hs j = Some s /\ s_cb s <> None).
+Proof.
+  unfold clear_cb. destruct (nth_error hs i) as [s0|] eqn:E.
+  - assert (Hlt : i < length hs) by (apply nth_error_Some; congruence). unfold set_slot.
+    destruct (Nat.eq_dec j i) as [->|Hj].
+    + rewrite lset_nth_same by auto. split.
+      * intros (s & Hs & Hc). inversion Hs; subst. simpl in Hc. congruence.
+      * intros [? _]. congruence.
+    + rewrite lset_nth_other by auto. tauto.
+  - split.
+    + intros (s & Hs & Hc). split; eauto. intros ->. congruence.
+    + tauto.
+Qed.
+
+Lemma Ptok_unreg st k : Ptok st -> Ptok (unregister st k).
+Proof.
+  intros [Hiff Huniq]. unfold unregister.
+  destruct (nth_error (tokens st) k) as [[[t i] [|]]|] eqn:Ek; try (split; assumption).
+  assert (Hlt : k < length (tokens st)) by (apply nth_error_Some; congruence).
+  split.
+  - intros t' i'. unfold live_slot. cbn [handlers tokens]. unfold upd.
+    destruct (N.eqb_spec t' t) as [->|Hne].
+    + rewrite clear_cb_live. split.
+      * intros [Hi Hl]. apply Hiff in Hl. destruct Hl as (k' & Hk'). exists k'.
+        rewrite lset_nth_other; auto. intros ->. rewrite Ek in Hk'. inversion Hk'; subst. congruence.
+      * intros (k' & Hk'). destruct (Nat.eq_dec k' k) as [->|Hkk].
+        { rewrite lset_nth_same in Hk' by auto. discriminate. }
+        rewrite lset_nth_other in Hk' by auto. split.
+        { intros ->. apply Hkk. eapply Huniq; eauto. }
+        { apply Hiff. eauto. }
+    + split.
+      * intros Hl. apply Hiff in Hl. destruct Hl as (k' & Hk'). exists k'.
+        rewrite lset_nth_other; auto. intros ->. rewrite Ek in Hk'. inversion Hk'; subst. congruence.
+      * intros (k' & Hk'). destruct (Nat.eq_dec k' k) as [->|Hkk].
+        { rewrite lset_nth_same in Hk' by auto. discriminate. }
+        rewrite lset_nth_other in Hk' by auto. apply Hiff. eauto.
+  - intros k1 k2 t' i'. cbn [tokens]. intros H1 H2.
+    destruct (Nat.eq_dec k1 k) as [->|N1]; [rewrite lset_nth_same in H1 by auto; discriminate|].
+    destruct (Nat.eq_dec k2 k) as [->|N2]; [rewrite lset_nth_same in H2 by auto; discriminate|].
+    rewrite lset_nth_other in H1, H2 by auto. eapply Huniq; eauto.
+Qed.
+
+Theorem registered_iff_not_unregistered script fuel c ops st0 st :
+  new_loop c = Ok st0 -> run script fuel st0 ops = Some st -> Ptok st.
+Proof.
+  intros H0 Hrun. eapply run_pres with (P := Ptok) (d0 := 0); [..|exact Hrun].
+  - intros s e Hs. unfold push_report. destruct (push (lq s) (Some e)). eapply Ptok_same; [| |exact Hs]; reflexivity.
+  - intros; eapply Ptok_same; [| |eassumption]; reflexivity.
+  - intros s t oe Hs. destruct oe; cbn [delay_until]; exact Hs.
+  - intros; apply Ptok_reg; auto.
+  - intros; apply Ptok_unreg; auto.
+  - lia.
+  - intros; eapply Ptok_same; [| |eassumption]; reflexivity.
+  - intros; eapply Ptok_same; [| |eassumption]; reflexivity.
+  - intros; eapply Ptok_same; [| |eassumption]; reflexivity.
+  - intros; eapply Ptok_same; [| |eassumption]; reflexivity.
+  - intros; eapply Ptok_same; [| |eassumption]; reflexivity.
+  - unfold new_loop in H0. destruct (new_queue c); try discriminate. inversion H0; subst.
+    split; unfold live_slot; cbn [handlers tokens].
+    + intros t i. split.
+      * intros (s & Hs & _). destruct i; discriminate.
+      * intros (k & Hk). destruct k; discriminate.
+    + intros k k' t i Hk. destruct k; discriminate.
+Qed.
+
+(* calling an unregister closure a second time changes nothing *)
+Theorem unregister_idempotent st k : unregister (unregister st k) k = unregister st k.
+Proof.
+  unfold unregister at 2 3. destruct (nth_error (tokens st) k) as [[[t i] [|]]|] eqn:Ek.
+  - unfold unregister. rewrite Ek. reflexivity.
+  - unfold unregister. cbn [tokens]. rewrite lset_nth_same by (apply nth_error_Some; congruence). reflexivity.
+  - unfold unregister. rewrite Ek. reflexivity.
+Qed.
+
+(* the closure of the unpatched tree is not idempotent: registering h1, calling its closure,
+   registering h2 (it reuses the slot) and calling the FIRST closure again removes h2 *)
+Definition stale_demo (unreg : lstate -> nat -> lstate) : list hid :=
+  let st0 := mkL (mkQ [None] (-1)%Z (-1)%Z) (fun _ => []) (fun _ => []) [] [] in
+  let st := unreg (register (unreg (register st0 0%N 1%N false false) 0) 0%N 2%N false false) 0 in
+  to_run st 0%N false.
+Theorem unregister_current_refuted : stale_demo unregister_current = [] /\ stale_demo unregister = [2%N].
+Proof. split; vm_compute; reflexivity. Qed.
